@@ -275,6 +275,22 @@ class SymSpec(object):
     def count(self, arr): return sym.arr_count(arr)
     def count_true(self, boolarr): return boolarr.count_true()
     def fn(self, name, arr, params=()): return sym.fn_atom(name, arr, params)
+    def fn2(self, name, a, b, params=()): return sym.fn_atom(name, (a, b), params)
+    def sort(self, arr): return shim_np.np_shim.sort(arr)
+    def log_arr(self, arr): return shim_np.np_shim.log(arr)
+
+    def same_array(self, a, b):
+        """a and b select the same points of the same index domain and hold the same values there"""
+        if not (isinstance(a, SArr) and isinstance(b, SArr)):
+            return SBool(False)
+        if len(a.axes) != len(b.axes) or any(x is not y for x, y in zip(a.axes, b.axes)):
+            return SBool(False)
+        i = a.generic("q")
+        self.idx_tuples.append((a.axes, i))
+        sa, sb = bz(a.sel_at(i)), bz(b.sel_at(i))
+        ea, eb = a.at(i), b.at(i)
+        eq = self.z(self.same(ea, eb))
+        return SBool(z3.Implies(sym.rng(i), z3.And(sa == sb, z3.Implies(sa, eq))))
 
     def list_len(self, lst):
         """length of a list built by a loop that ran at a generic index: the trip count"""
@@ -461,6 +477,18 @@ class ConcSpec(object):
 
     def list_len(self, lst): return len(lst)
     def loop_items(self, lst): return list(enumerate(lst))
+    def sort(self, arr): return _np.sort(arr)
+    def fn2(self, name, a, b, params=()): return CONCRETE_FUNCTIONALS2[name](a, b)
+
+    def log_arr(self, arr):
+        with _np.errstate(all="ignore"):
+            return _np.log(arr)
+
+    def same_array(self, a, b):
+        a, b = _np.asarray(a, float), _np.asarray(b, float)
+        if a.shape != b.shape:
+            return False
+        return all(self.same(x, y) for x, y in zip(a.flatten(), b.flatten()))
 
     def count_where(self, arr, pred):
         a = _np.asarray(arr)
@@ -474,6 +502,24 @@ class ConcSpec(object):
         tot = sum(coef * float(x) for coef, x in terms)
         return abs(tot) <= 1e-9 * max(1.0, max(abs(float(x)) for _, x in terms))
 
+
+def _spearman(a, b):
+    import scipy.stats
+    import warnings
+    with warnings.catch_warnings():
+        warnings.simplefilter("ignore")
+        return scipy.stats.spearmanr(a, b)[0]
+
+
+def _kendall(a, b):
+    import scipy.stats
+    import warnings
+    with warnings.catch_warnings():
+        warnings.simplefilter("ignore")
+        return scipy.stats.kendalltau(a, b)[0]
+
+
+CONCRETE_FUNCTIONALS2 = {"spearmanr": _spearman, "kendalltau": _kendall}
 
 CONCRETE_FUNCTIONALS = {
     "median": lambda a, axis=None: _np.median(a, axis=axis),
@@ -508,6 +554,7 @@ class ObResult(object):
         self.backends = {}
         self.canary = None
         self.decls = []
+        self.cases = None
 
     def to_json(self):
         return {
@@ -516,7 +563,7 @@ class ObResult(object):
             "goals": [{"label": g.label, "verdict": g.verdict, "seconds": round(g.seconds, 4), "backend": g.backend,
                        "path": g.path, "note": g.note} for g in self.goals],
             "assumed": sorted(self.assumed), "note": self.note, "witness": self.witness, "replay": self.replay,
-            "canary": self.canary,
+            "canary": self.canary, "cases": self.cases,
         }
 
 
@@ -525,6 +572,8 @@ def _patch_stack(o, inp):
     st = contextlib.ExitStack()
     for m in o.modules:
         names = {"np": shim_np.np_shim}
+        if "scipy" in m.__dict__:
+            names["scipy"] = shim_np.scipy_shim
         if o.shadows:
             names.update(shim_np.BUILTIN_SHADOWS)
         st.enter_context(engine.patched(m, **names))
@@ -570,7 +619,7 @@ GRID_NUM = [0.0, 1.0, 2.0, 0.5, 3.0, -1.0]
 GRID_ARR = [0.0, 1.0, 2.0, -1.0]
 
 
-def enumerate_witness(o, decls, seed=0, budget=6000):
+def enumerate_witness(o, decls, seed=0, budget=6000, sizes=(1, 2, 3), stop_at_first=True, stats=None):
     """concrete search for a failing input of the same contract on the REAL code: small grids of values for
     every declared input (array extents 1..3), exhaustive while the grid is small, seeded-random beyond"""
     import itertools
@@ -578,7 +627,8 @@ def enumerate_witness(o, decls, seed=0, budget=6000):
     rnd = random.Random(seed)
     special = {NAN: float("nan"), PINF: float("inf"), NINF: float("-inf"), MASKED: "masked"}
     tried = 0
-    for n in (1, 2, 3):
+    per = max(1, budget // max(1, len(sizes)))
+    for n in sizes:
         names, domains = [], []
         sizes = {}
         for kind, name, info in decls:
@@ -618,7 +668,11 @@ def enumerate_witness(o, decls, seed=0, budget=6000):
                     flat = [choice_fn(d[1]) for _ in range(k)]
                     vals[nm] = _np.array(flat, dtype=object).reshape(d[2]).tolist()
             return vals
-        if total <= budget // 3:
+        if stats is not None:
+            stats.setdefault("exhaustive", True)
+            if total > per:
+                stats["exhaustive"] = False
+        if total <= per:
             scal = []
             for d in domains:
                 if d[0] == "scalar":
@@ -633,16 +687,68 @@ def enumerate_witness(o, decls, seed=0, budget=6000):
                     vals[nm] = c if d[0] == "scalar" else _np.array(list(c), dtype=object).reshape(d[2]).tolist()
                 cands.append(vals)
         else:
-            cands = [build(lambda xs: rnd.choice(xs)) for _ in range(budget // 3)]
+            cands = [build(lambda xs: rnd.choice(xs)) for _ in range(per)]
         for vals in cands:
             tried += 1
             try:
                 rep = replay(o, vals)
             except Exception:
                 continue
+            if stats is not None:
+                stats["cases"] = tried
+                if rep.get("outcome") != "precondition-not-met":
+                    stats["evaluated"] = stats.get("evaluated", 0) + 1
             if rep.get("failed"):
                 return vals, rep, tried
+    if stats is not None:
+        stats["cases"] = tried
     return None
+
+
+def declared_inputs(o):
+    """the input declarations of an obligation (run its setup once on a recording symbolic generator)"""
+    CTX.reset_run()
+    E = engine.Engine()
+    CTX.engine = E
+    E._new_solver()
+    E._prefix, E._pos, E._work = [], 0, []
+    G = SymGen()
+    o.setup(G)
+    return list(G.decls)
+
+
+def bounded_obligation(name, props, setup, call, post, bound, sizes=(1, 2, 3), budget=60000, **kw):
+    """a bounded stand-in: the same contract evaluated concretely on the real function over an enumeration
+    with a stated bound.  Labelled bounded; never counted as discharged (DESIGN 2.10)."""
+    o = Obligation(name, props, setup, call, post, bounded=bound, kind="BOUNDED", **kw)
+
+    def runner(o, timeout_ms=0, second=False):
+        t0 = time.time()
+        res = ObResult(o.name)
+        stats = {}
+        try:
+            decls = declared_inputs(o)
+            w = enumerate_witness(o, decls, seed=int(os.environ.get("VERIF_SEED", "0")), budget=budget, sizes=sizes, stats=stats)
+        except Exception:
+            res.status = "error"
+            res.note = traceback.format_exc()
+            return res
+        res.paths = stats.get("evaluated", 0)
+        res.cases = stats.get("evaluated", 0)
+        if w is None:
+            res.status = "discharged" if res.cases > 0 else "error"
+            res.goals.append(GoalResult("bounded-enumeration", "unsat", time.time() - t0, backend="concrete-enumeration", path=0,
+                                        note="%d cases, exhaustive=%s" % (res.cases, stats.get("exhaustive"))))
+        else:
+            res.status = "refuted"
+            res.witness, res.replay = w[0], w[1]
+            for lab in w[1]["failed"]:
+                res.goals.append(GoalResult(lab, "sat", time.time() - t0, backend="concrete-enumeration", path=0))
+        res.seconds = time.time() - t0
+        return res
+    o.runner = runner
+    o.no_unroll = True
+    return register(o)
 
 
 def find_witness(o, timeout_ms=20000, sizes=(1, 2, 3)):
